@@ -315,4 +315,19 @@ theorem C15_task_events_accepted : ∀ (s ev : Status) (rem act : Bool) (oc : Ou
     wfReachable s = true → hasTaskEvent ev = true → (wfOnTaskEvent s ev rem act oc).isOk = true := by
   decide +kernel
 
+/-! ### C01/C03/C18: a fresh execution is recognised as one -/
+
+/-- **C01/C03/C18**: every status with which the task machine lets an execution begin (moves a record
+    out of `unset`) is a *starting* status, which is what makes `update_task_state` open a new record
+    when a completed task is entered again (next loop iteration, rerun) instead of applying the
+    event to the finished record -/
+theorem C03_fresh_start_statuses : ∀ (ev : Status),
+    (tkOnActionEvent .unset ev).all? (fun s' => s' == .unset || ev.isStarting) = true := by
+  decide +kernel
+
+/-- the same for item events -/
+theorem C03_fresh_start_statuses_item : ∀ (ev : Status) (a p c f i : Bool),
+    (tkOnItemEvent .unset ev a p c f i).all? (fun s' => s' == .unset || ev.isStarting) = true := by
+  decide +kernel
+
 end Orq
